@@ -77,6 +77,13 @@ class _Node(nn.Module):
   spec: Any = None
   shared: tuple = ()
   dim: int = 2
+  # with two or more shared-in modules the last one travels in its own
+  # attribute, declared after `shared` but sorting before it: module-valued
+  # attributes in more than one field, declaration order != sorted order
+  peer: Any = None
+
+  def all_shared(self):
+    return tuple(self.shared) + ((self.peer,) if self.peer is not None else ())
 
   # -- helpers -------------------------------------------------------------
   def _prog(self):
@@ -86,7 +93,7 @@ class _Node(nn.Module):
     tr = op.get('tr')
     if tr == 'map_id':
       tr = 'map_id_init' if self.is_initializing() else 'map_id_apply'
-    return make_module(op['prog'], self.dim, shared=self.shared,
+    return make_module(op['prog'], self.dim, shared=self.all_shared(),
                        name=op.get('name'), tr=tr, parent=parent)
 
   def _run(self, x, ops, objs):
@@ -132,8 +139,9 @@ class _Node(nn.Module):
         if children:
           x = children[op['i'] % len(children)](x)
       elif k == 'shared':
-        if self.shared:
-          x = self.shared[op['j'] % len(self.shared)](x)
+        sh = self.all_shared()
+        if sh:
+          x = sh[op['j'] % len(sh)](x)
       elif k == 'write':
         self.put_variable(op['col'], op['name'], jnp.sum(x))
       elif k == 'tanh':
@@ -217,7 +225,7 @@ class _Setup(_Node):
       if k in ('dense', 'sub'):
         m = nn.Dense(self.dim, kernel_init=_param_init_k(self, None)) \
             if k == 'dense' else make_module(op['prog'], self.dim,
-                                             shared=self.shared)
+                                             shared=self.all_shared())
         kind = op.get('attr', 'attr')
         if kind == 'list':
           lst.append((i, m))
@@ -303,7 +311,16 @@ def make_module(prog, dim, shared=(), name=None, parent=dataclasses.MISSING,
     kw['name'] = name
   if parent is not dataclasses.MISSING:
     kw['parent'] = parent
-  return cls(spec=freeze_json(prog), shared=tuple(shared), dim=dim, **kw)
+  shared = tuple(shared)
+  if len(shared) >= 2:
+    kw['peer'] = shared[-1]
+    shared = shared[:-1]
+  return cls(spec=freeze_json(prog), shared=shared, dim=dim, **kw)
+
+
+def shared_name(j, n):
+  """Name under which the root adopts shared module j of n."""
+  return 'peer' if n >= 2 and j == n - 1 else f'shared_{j}'
 
 
 def make_root(case):
@@ -410,7 +427,7 @@ def expected_tree(case, mutable_cols=None, include_sow=True):
           j = op['j'] % len(progs)
           if j not in done_shared:
             done_shared.add(j)
-            walk(progs[j], (f'shared_{j}',), False)
+            walk(progs[j], (shared_name(j, len(progs)),), False)
 
   walk(case['prog'], (), True)
   return out
